@@ -14,7 +14,10 @@ RULE = (
     "quantise_pooling_scale: all windows 1..256 x every reachable 8-bit accumulator and, for 16-bit, every accumulator for windows <=12 plus all ties "
     "and range ends, windows to 65536 (8-bit) / 16384 (16-bit) on ties and ends; add/sub/mul triples of float32 scales incl. equal scales, ratios near "
     "powers of two. non-trivial = scale not a power of two and inside the representable range / accumulator with non-zero remainder / triple with unequal "
-    "input scales; distinct = the value itself (counted per class for the enumerated parts)."
+    "input scales; distinct = the value itself (counted per class for the enumerated parts). part B: networks with convolution-type operators (profiles convs / "
+    "exact / exact16 / cascade) are compiled; every 10-byte (bias, scale, shift) record the decoded streams address - per core, per depth slice, also where weights "
+    "were DMA-buffered - is compared channel by channel with the reference derivation from the source operator's scales (per-channel double; float32 product for "
+    "uint8 and FULLY_CONNECTED; reduced 16-bit multiplier for int16 with 64-bit bias) and the source bias value; non-trivial = artefact with >=1 compared record."
 )
 ASSUMPTIONS = [
     "float32 scale M*2^(e-24) has the exact Q31 significand M<<7 (closed form used for the enumerated float32 part); float64 part uses exact rationals",
@@ -392,9 +395,107 @@ def triples(ctx, arg, rec):
 
 
 # ----------------------------------------------------------------------------------------------------------
+# ---- part B: packed scale records of compiled networks ---------------------------------------------------
+def artefact_case(case, rec=None):
+    """every (bias, scale, shift) record of every convolution-type NPU operation of a compiled network is compared, channel by channel, with the reference derivation
+    from the *source* operator's quantisation parameters and bias tensor"""
+    import numpy as np
+
+    import artefact as artefact_mod
+    import csdec
+    import e2e
+    import fbwrite
+    import npusim
+    import payload
+    import tflinterp
+    import vmodel
+
+    try:
+        art, res = e2e.compile_case(case, capture=True)
+    except (artefact_mod.ArtefactError, vmodel.ModelError, payload.PayloadError, csdec.DecodeError) as e:
+        raise Violation("C09/artefact/malformed", "%s: %s" % (type(e).__name__, e), case)
+    if res.get("harness"):
+        raise HarnessError("harness failure: %s" % (res["exc"][3],))
+    if art is None or not art.npu_ops:
+        return
+    src = vmodel.load(fbwrite.build(case["spec"]))
+    T = src["subgraphs"][0]["tensors"]
+    by_out = {T[o["outputs"][0]]["name"]: o for o in src["subgraphs"][0]["ops"] if o["code"] in ("CONV_2D", "DEPTHWISE_CONV_2D", "FULLY_CONNECTED")}
+    streams = [cap["ops"] for cap in res["captured"]]
+    compared = 0
+    for si, nop in enumerate(art.npu_ops):
+        cmds = [c for c in nop.cmds() if c.kind in ("conv", "depthwise", "pool", "elementwise", "dma")]
+        labels = streams[si] if si < len(streams) else []
+        if len(labels) != len(cmds):
+            continue
+        mem = {0: nop.flash}
+        # weights/scales may have been copied to SRAM by a DMA: replay the copies over plain byte arrays so that the records can be read where the operation reads them
+        sizes = {1: max(art.arena_size(), art.nbytes(nop.scratch_i), 1), 2: max(art.nbytes(nop.fast_i), 1)}
+        for r, n in sizes.items():
+            mem[r] = bytearray(n)
+        for c, lab in zip(cmds, labels):
+            f = csdec.fields(c)
+            if c.kind == "dma":
+                sr, dr = f["src_region"], f["dst_region"]
+                if dr in mem and sr in mem and f["src"] + f["length"] <= len(mem[sr]) and f["dst"] + f["length"] <= len(mem[dr]) and not isinstance(mem[dr], bytes):
+                    mem[dr][f["dst"]: f["dst"] + f["length"]] = bytes(mem[sr][f["src"]: f["src"] + f["length"]])
+                continue
+            so = by_out.get(lab.get("op_name"))
+            if c.kind not in ("conv", "depthwise") or so is None or lab.get("ofm_box") is None:
+                continue
+            want_kind = {"CONV_2D": "Conv2DBias", "DEPTHWISE_CONV_2D": "DepthwiseConv2DBias", "FULLY_CONNECTED": "FullyConnected"}[so["code"]]
+            if lab.get("original_type") != want_kind:
+                continue
+            it, wt, ot = T[so["inputs"][0]], T[so["inputs"][1]], T[so["outputs"][0]]
+            bt = T[so["inputs"][2]] if len(so["inputs"]) > 2 and so["inputs"][2] >= 0 else None
+            if it["dtype"] not in ("int8", "uint8", "int16") or it["scale"] is None or wt["scale"] is None or ot["scale"] is None:
+                continue
+            try:
+                W, bias, scl, shf, _ = npusim.decode_weight_volume(mem, f, art.accel)
+            except npusim.SimError as e:
+                raise Violation("C09/artefact/unreadable", "%s: %s" % (lab.get("op_name"), e), case)
+            c0, c1 = lab["ofm_box"][0][3], lab["ofm_box"][1][3]
+            sw = np.asarray(wt["scale"], np.float32)
+            m, e = tflinterp.conv_multipliers(np.float32(it["scale"][0]), sw, np.float32(ot["scale"][0]), it["dtype"] == "uint8" or so["code"] == "FULLY_CONNECTED")  # FC takes the float32 product of the two scales (GetQuantizedConvolutionMultipler)
+            if len(m) == 1:
+                m, e = np.repeat(m, c1), np.repeat(e, c1)
+            bvals = vmodel.tensor_array(bt).astype(np.int64) if bt is not None and bt["data"] is not None else np.zeros(c1, np.int64)
+            wide = it["dtype"] == "int16" and bt is not None and bt["dtype"] == "int64"
+            for k, ch in enumerate(range(c0, c1)):
+                mm, ee = int(m[ch]), int(e[ch])
+                if wide:
+                    rm = ((mm + (1 << 15)) >> 16) if mm < 0x7FFF0000 else 0x7FFF
+                    want = (rm, 15 - ee)
+                else:
+                    want = (mm, 31 - ee)
+                got = (int(scl[k]), int(shf[k]))
+                # the same value may be written (2^31, s) or (2^30, s-1); a zero multiplier has no meaningful shift
+                same = got == want or (want[0] == 0 and got[0] == 0) or (got[0] == 2 * want[0] and got[1] == want[1] + 1) or (2 * got[0] == want[0] and got[1] + 1 == want[1])
+                if not same:
+                    raise Violation("C09/artefact/scale", "%s channel %d: packed (scale, shift) = %s but the reference derivation from input %r x weight %r / output %r gives %s" % (
+                        lab.get("op_name"), ch, got, it["scale"][0], float(sw[ch] if len(sw) > 1 else sw[0]), ot["scale"][0], want), case)
+                if ch < len(bvals) and int(bias[k]) != int(bvals[ch]):
+                    raise Violation("C09/artefact/bias", "%s channel %d: packed bias %d, source bias %d" % (lab.get("op_name"), ch, int(bias[k]), int(bvals[ch])), case)
+                compared += 1
+    if rec is not None and compared:
+        rec.cls("artefact-records-compared")
+        rec.nontriv(["artefact", case], sample=dict(kind="artefact", ops=[o["code"] for o in case["spec"]["ops"]], accel=art.accel, records=compared, dtype=case["spec"]["tensors"][case["spec"]["inputs"][0]]["dtype"]))
+
+
+def artefacts(ctx, arg, rec):
+    import e2e
+    from runner import run_hypothesis
+
+    shard, n = arg
+    prof = ["convs", "exact", "exact16", "cascade"][shard % 4]
+    strat = e2e.case_strategy(prof, max_ops=4, big=prof == "cascade", small_arena=prof == "cascade", dtypes=("int16",) if prof == "exact16" else ("int8", "int8", "uint8", "int16"))
+    run_hypothesis(rec, strat, artefact_case, n, sub_seed(ctx.seed, PROPERTY, "artefact", shard))
+
+
 def parts(ctx):
     ps = []
     q = ctx.quick
+    ps += [Part("artefact%02d" % i, artefacts, (i, 12 if q else 500)) for i in range(8)]
     # float32 exhaustive exponents (unbiased exponent of 1.m * 2^exp)
     exps = [-8] if q else [-41, -34, -33, -32, -31, -17, -8, -2, -1, 0, 14, 30, 31]
     for exp in exps:
@@ -427,5 +528,7 @@ def replay(ctx, case):
         check_pool_window(n, accs, case, None, case.get("bits", 8))
     elif k == "triple":
         check_triple(case, None)
+    elif "spec" in case:
+        artefact_case(case, None)
     else:
         raise Violation("C09/replay", "unknown case kind", case)
